@@ -34,7 +34,7 @@ def drivers(vlib):
     return impl, saver, model
 
 
-# ---------------------------------------------------------------- shapes: ('n',) ('B',) ('i',kind) ('f',) ('d',) ('s',) ('b',) ('[',e) ('{',[(name,shape)]) ('<',kshape,vshape,mode) ('(',n,e) ('v',) ('^',[shape..]);  mode in 'cou' = MapLoadMode Clean / OnlyExistKeys / UpdateKeys
+# ---------------------------------------------------------------- shapes: ('n',) ('B',) ('i',kind) ('f',) ('d',) ('s',) ('b',) ('[',e) ('{',[(name,shape)]) ('<',kshape,vshape,mode) ('(',n,e) ('v',) ('^',[shape..]) ('?',w,e) with w in '?*&' = optional / unique_ptr / shared_ptr, ('M',kshape,vshape) multimap, ('S',multi,kshape) set / multiset;  mode in 'cou' = MapLoadMode Clean / OnlyExistKeys / UpdateKeys
 
 def rand_shape(rng, depth=0):
     k = rng.random()
@@ -62,7 +62,19 @@ def rand_shape(rng, depth=0):
         return ("v",)
     if k < 0.82:
         return ("^", [rand_shape(rng, depth + 1) for _ in range(rng.choice([0, 1, 2, 2, 3, 4]))])
+    if k < 0.84:
+        # std::pair: the class with the members "key" and "value"
+        return ("{", [(b"key", rand_shape(rng, depth + 1)), (b"value", rand_shape(rng, depth + 1))], "pair")
     if k < 0.88:
+        e = rand_shape(rng, depth + 1)
+        while e[0] in "n?":          # a wrapper holds a shape that is never nil
+            e = rand_shape(rng, depth + 1)
+        return ("?", rng.choice("?*&"), e)
+    if k < 0.905:
+        return ("M", ("s",) if rng.random() < 0.5 else ("i", rng.choice(list(IKINDS))), rand_shape(rng, depth + 1))
+    if k < 0.92:
+        return ("S", rng.random() < 0.5, ("s",) if rng.random() < 0.5 else ("i", rng.choice(list(IKINDS))))
+    if k < 0.95:
         ks = ("s",) if rng.random() < 0.5 else ("i", rng.choice(list(IKINDS)))
         return ("<", ks, rand_shape(rng, depth + 1), rng.choice("cccou"))
     n = rng.choice([0, 1, 2, 3, 4, 6]) if depth < 2 else rng.randrange(0, 3)
@@ -100,6 +112,14 @@ def shape_text(s):
         return "v"
     if t == "^":
         return "^" + ";".join(shape_text(x) for x in s[1]) + "$"
+    if t == "?":
+        return s[1] + shape_text(s[2])
+    if t == "M":
+        return "<m|" + shape_text(s[1]) + "=" + shape_text(s[2]) + ">"
+    if t == "S":
+        return ("@" if s[1] else "#") + shape_text(s[2])
+    if len(s) == 3 and s[2] == "pair":
+        return "%" + shape_text(s[1][0][1]) + ";" + shape_text(s[1][1][1]) + "$"
     return "{" + ";".join("s%s=%s" % (M.hx(nm), shape_text(x)) for nm, x in s[1]) + "}"
 
 
@@ -156,6 +176,24 @@ def rand_value(rng, s, depth=0):
     if t == "(":
         items = [rand_value(rng, s[2], depth + 1) for _ in range(s[1])]
         return "[" + ";".join(a for a, _, _ in items) + "]", "[" + ";".join(b for _, b, _ in items) + "]", [v for _, _, v in items]
+    if t == "?":
+        if rng.random() < 0.3:
+            return "n", "n", None
+        return rand_value(rng, s[2], depth)
+    if t == "M":
+        n = rng.choice([0, 1, 2, 3, 5]) if depth < 2 else rng.randrange(0, 3)
+        base = rand_map_keys(rng, s[1], max(1, n))
+        keys = sorted(rng.choice(base) for _ in range(n)) if base else []        # equal keys allowed
+        items = [(k, rand_value(rng, s[2], depth + 1)) for k in keys]
+        pair = lambda k, x: "{s6b6579=%s;s76616c7565=%s}" % (key_text(s[1], k), x)
+        return ("[" + ";".join(pair(k, a) for k, (a, _, _) in items) + "]", "[" + ";".join(pair(k, b) for k, (_, b, _) in items) + "]",
+                [("map", [(b"key", k), (b"value", v)]) for k, (_, _, v) in items])
+    if t == "S":
+        n = rng.choice([0, 1, 2, 3, 6])
+        base = rand_map_keys(rng, s[2], max(1, n))
+        keys = sorted(rng.choice(base) for _ in range(n)) if (s[1] and base) else base[:n]
+        x = "[" + ";".join(key_text(s[2], k) for k in keys) + "]"
+        return x, x, list(keys)
     if t == "^":
         items = [rand_value(rng, x, depth + 1) for x in s[1]]
         return "[" + ";".join(a for a, _, _ in items) + "]", "[" + ";".join(b for _, b, _ in items) + "]", [v for _, _, v in items]
@@ -205,6 +243,23 @@ class Unjudged(Exception):
 
 NOT = object()      # Serialize(...) returned false: the target keeps what it holds
 
+
+class Reset:
+    """Serialize(...) returned false, but the target now holds x (a wrapper that was reset to empty)"""
+    def __init__(self, x):
+        self.x = x
+
+
+def loaded(r):
+    return r is not NOT and not isinstance(r, Reset)
+
+
+def after(i0, r):
+    """what a target that held i0 holds after the result r"""
+    if r is NOT:
+        return i0
+    return r.x if isinstance(r, Reset) else r
+
 # target values: None | bool | int | ("f", bits) | ("d", bits) | bytes (string) | ("b", bytes) | list | ("o", [(name, value)]) | dict (map)
 
 
@@ -225,6 +280,10 @@ def default_val(s):
     if t == "b":
         return ("b", b"")
     if t in "[v":
+        return []
+    if t == "?":
+        return None
+    if t in "MS":
         return []
     if t == "<":
         return {}
@@ -262,6 +321,12 @@ def show(s, x):
         return "[" + ";".join(show(y, z) for y, z in zip(s[1], x)) + "]"
     if t == "<":
         return "{" + ";".join("%s=%s" % (key_text(s[1], k), show(s[2], x[k])) for k in sorted(x)) + "}"
+    if t == "?":
+        return "n" if x is None else show(s[2], x)
+    if t == "M":
+        return "[" + ";".join("{s6b6579=%s;s76616c7565=%s}" % (key_text(s[1], k), show(s[2], y)) for k, y in x) + "]"
+    if t == "S":
+        return "[" + ";".join(key_text(s[2], k) for k in x) + "]"
     return "{" + ";".join("s%s=%s" % (M.hx(nm), show(sh, y)) for (nm, sh), (_, y) in zip(s[1], x[1])) + "}"
 
 
@@ -278,8 +343,34 @@ def py_load(pol, s, init, v):
             raise Stop("O")
         return NOT
     t = s[0]
-    if t in "[{b<(v^" and v is None:
+    if t == "?":
+        # optional / unique_ptr / shared_ptr: an empty one gets a fresh value, the value is loaded; false: reset to empty
+        r = py_load(pol, s[2], default_val(s[2]) if init is None else init, v)
+        return r if loaded(r) else Reset(None)
+    if t in "[{b<(v^MS" and v is None:
         return NOT
+    if t == "M":
+        # SerializeMultiMapImpl: clear; per element a fresh pair loaded as the class { key; value }; inserted (behind equal keys) if that returned true
+        if not isinstance(v, list):
+            return mism()
+        pshape = ("{", [(b"key", s[1]), (b"value", s[2])])
+        out = []
+        for x in v:
+            r = py_load(pol, pshape, default_val(pshape), x)
+            if loaded(r):
+                out.append((r[1][0][1], r[1][1][1]))
+        return sorted(out, key=lambda kv: kv[0])         # stable: equal keys keep the order of the document
+    if t == "S":
+        # SerializeSetImpl: clear; per element a fresh K is loaded (the result is ignored) and inserted
+        if not isinstance(v, list):
+            return mism()
+        out = []
+        for x in v:
+            r = py_load(pol, s[2], default_val(s[2]), x)
+            k = r if loaded(r) else default_val(s[2])
+            if s[1] or k not in out:
+                out.append(k)
+        return sorted(out)
     if t == "[":
         # SerializeContainer: resized to the count, each element loaded into what is there (or a fresh one), RESET if not loaded
         if not isinstance(v, list):
@@ -288,7 +379,7 @@ def py_load(pol, s, init, v):
         for i, x in enumerate(v):
             i0 = init[i] if i < len(init) else default_val(s[1])
             r = py_load(pol, s[1], i0, x)
-            out.append(default_val(s[1]) if r is NOT else r)
+            out.append(r if loaded(r) else default_val(s[1]))
         return out
     if t == "(":
         # SerializeFixedSizeArray: elements while both sides have one (kept if not loaded), then OutOfRange unless both are exhausted
@@ -296,9 +387,7 @@ def py_load(pol, s, init, v):
             return mism()
         out = list(init) + [default_val(s[2])] * max(0, s[1] - len(init))
         for i, x in enumerate(v[:s[1]]):
-            r = py_load(pol, s[2], out[i], x)
-            if r is not NOT:
-                out[i] = r
+            out[i] = after(out[i], py_load(pol, s[2], out[i], x))
         if len(v) != s[1]:
             raise Stop("R")
         return out
@@ -312,9 +401,7 @@ def py_load(pol, s, init, v):
                 if pol[0] == "T":
                     raise Stop("M")
                 break
-            r = py_load(pol, x, out[i], v[i])
-            if r is not NOT:
-                out[i] = r
+            out[i] = after(out[i], py_load(pol, x, out[i], v[i]))
         if len(v) > len(s[1]) and pol[0] == "T":
             raise Stop("M")
         return out
@@ -325,7 +412,7 @@ def py_load(pol, s, init, v):
         out, cur = [], False
         for x in v:
             r = py_load(pol, ("B",), False, x)
-            if r is not NOT:
+            if loaded(r):
                 cur = r
             out.append(cur)
         return out
@@ -337,7 +424,7 @@ def py_load(pol, s, init, v):
         out = bytearray()
         for x in v:
             r = py_load(pol, ("i", "u8"), 0, x)
-            out.append(0 if r is NOT else r)
+            out.append(r if loaded(r) else 0)
         return ("b", bytes(out))
     if t == "<":
         # SerializeMapImpl: Clean clears; per member in document order convert the key, then
@@ -366,8 +453,7 @@ def py_load(pol, s, init, v):
             if s[3] == "o" and k not in cur:
                 continue
             i0 = cur[k] if k in cur else default_val(s[2])
-            r = py_load(pol, s[2], i0, x)
-            cur[k] = i0 if r is NOT else r
+            cur[k] = after(i0, py_load(pol, s[2], i0, x))
         return cur
     if t == "{":
         if not (isinstance(v, tuple) and v[0] == "map"):
@@ -380,8 +466,9 @@ def py_load(pol, s, init, v):
             found = [val for k, val in v[1] if isinstance(k, bytes) and k == nm]
             if len(found) > 1:
                 raise Unjudged("duplicate keys")
-            r = py_load(pol, x, i0, found[0]) if found else NOT
-            out.append((nm, i0 if r is NOT else r))
+            # an absent member: the keyed load returns false; a wrapper has been reset to empty by then
+            r = py_load(pol, x, i0, found[0]) if found else (Reset(None) if x[0] == "?" else NOT)
+            out.append((nm, after(i0, r)))
         return ("o", out)
     # one typed read
     if v is None:
@@ -434,7 +521,7 @@ def expected(pol, s, data, init=None):
         return "ERR " + e.cat
     except Unjudged:
         return None
-    return "OK " + show(s, init if r is NOT else r)
+    return "OK " + show(s, after(init, r))
 
 
 def clean_maps(s):
@@ -447,6 +534,8 @@ def clean_maps(s):
         return clean_maps(s[2])
     if t == "^":
         return all(clean_maps(x) for x in s[1])
+    if t == "?" or t == "M":
+        return clean_maps(s[2])
     if t == "{":
         return all(clean_maps(x) for _, x in s[1])
     return True
@@ -460,9 +549,7 @@ def rand_prior(rng, s):
         r = py_load("SS", s, default_val(s), val)
     except (Stop, Unjudged):
         return default_val(s)
-    if r is NOT:
-        return default_val(s)
-    return scrub(s, r)
+    return scrub(s, after(default_val(s), r))
 
 
 def scrub(s, x):
@@ -472,6 +559,10 @@ def scrub(s, x):
         return ("f", 0x3fc00000) if math.isnan(f32_of(x[1])) else x
     if t == "d":
         return ("d", 0x3ff8000000000000) if math.isnan(f64_of(x[1])) else x
+    if t == "?":
+        return None if x is None else scrub(s[2], x)
+    if t == "M":
+        return [(k, scrub(s[2], y)) for k, y in x]
     if t == "[":
         return [scrub(s[1], y) for y in x]
     if t == "(":
@@ -497,6 +588,22 @@ def perturb(rng, s, v, depth=0):
     if rng.random() < 0.12:
         return other_value(rng)
     t = s[0]
+    if t == "?":
+        return perturb(rng, s[2], v, depth) if v is not None else rng.choice([None, None, other_value(rng)])
+    if t == "M" and isinstance(v, list):
+        pshape = ("{", [(b"key", s[1]), (b"value", s[2])])
+        out = [perturb(rng, pshape, x, depth + 1) for x in v]
+        if rng.random() < 0.6:
+            rng.shuffle(out)
+        if rng.random() < 0.3:
+            out.insert(rng.randrange(len(out) + 1), other_value(rng))
+        return out
+    if t == "S" and isinstance(v, list):
+        out = [other_value(rng) if rng.random() < 0.15 else x for x in v]
+        if out and rng.random() < 0.4:
+            out.append(rng.choice(out))
+        rng.shuffle(out)
+        return out
     if t == "[" and isinstance(v, list):
         out = [perturb(rng, s[1], x, depth + 1) for x in v]
         if rng.random() < 0.2:
@@ -650,7 +757,7 @@ def run_mpload(ctx, vlib):
     samples = [dict(case=cases[i][:400], implementation=oi[i][:200], model=om[i][:200]) for i in range(0, len(cases), step)][:3]
     return dict(evaluations=len(cases), distinct_nontrivial=nontrivial, samples=samples, classes=classes, failing=failing, diffs=diffs,
                 known_lines=known_lines, extra=dict(mpload_verdicts=verdicts),
-                rule="typed load of whole value trees through LoadObject<MsgPackArchive> (string and istream): random shapes (all integer kinds, bool, nullptr, float, double, string, byte container, nested vectors, classes with up to 6 string-named members, std::map<std::string, V> and std::map<integer type, V> for all eight integer types, std::array<V, N> with N in 0..5, std::vector<bool>, std::tuple of 0..4 components, depth <= 4); documents = the implementation's own SaveObject output of a random value of the shape, the independent Python encoder's output with random format widths, and perturbed documents (members permuted / dropped / added, map entries permuted and added with keys in and out of the key type's range and occasionally of another class, values of other kinds, extra elements) under the four policy combinations; std::map targets in the three MapLoadModes; half of the loads into a fresh target, half into a target that already holds the result of loading another random document of the shape; compared with the extracted specification load_bytes_into and with an independent Python evaluation; saved documents must load back to the saved tree whatever the target holds (maps in Clean)",
+                rule="typed load of whole value trees through LoadObject<MsgPackArchive> (string and istream): random shapes (all integer kinds, bool, nullptr, float, double, string, byte container, nested vectors, classes with up to 6 string-named members, std::map<std::string, V> and std::map<integer type, V> for all eight integer types, std::array<V, N> with N in 0..5, std::vector<bool>, std::tuple of 0..4 components, std::optional / std::unique_ptr / std::shared_ptr of any of these, std::pair, std::multimap<K, V> and std::set<K> / std::multiset<K> with K = std::string or an integer type, depth <= 4); documents = the implementation's own SaveObject output of a random value of the shape, the independent Python encoder's output with random format widths, and perturbed documents (members permuted / dropped / added, map entries permuted and added with keys in and out of the key type's range and occasionally of another class, values of other kinds, extra elements) under the four policy combinations; std::map targets in the three MapLoadModes; half of the loads into a fresh target, half into a target that already holds the result of loading another random document of the shape; compared with the extracted specification load_bytes_into and with an independent Python evaluation; saved documents must load back to the saved tree whatever the target holds (maps in Clean)",
                 broken="correspondence MsgPack typed load specification vs LoadObject<MsgPackArchive> (drv_mpload)")
 
 
